@@ -37,7 +37,7 @@ def run(ctx, rep):
     rep.rule("K1-K3", "results are keyed and tagged by the caller's id: add_content inserts under `id` a result whose id is `id`; the per-file closure returns its entry's key and keeps the stored id; validate's chain is into_iter().map(..).collect()")
     reach, user_acts, g = user_reach(facts, gram)
     rep.analysed["functions reachable from add_content / validate / grammar actions"] = len(reach)
-    canned = lambda p: p.startswith("rules::aidl::__action") and p not in user_acts
+    canned = lambda p: p.startswith("rules::aidl::__action") and p.split("::{closure")[0] not in user_acts   # closures of user actions are user code
     ss = panics.sites(facts, reach, skip=canned)
     rep.floor("A8", "potential panic sites in user code", len(ss), 20)
     obls, stats = wiring.analyse(ctx)
